@@ -189,6 +189,9 @@ func (x *Xlat) initial(key string, s Sort) *Term {
 		} else {
 			x.ctx.constAxioms[t.Op] = nil
 		}
+		if ax := x.structElemsAxiom(key, t); ax != nil {
+			x.ctx.constAxioms[t.Op] = append(x.ctx.constAxioms[t.Op], ax)
+		}
 	}
 	return t
 }
